@@ -85,6 +85,58 @@ pub struct FnInfo {
 thread_local! {
     /// selected type aliases: (crate, name) -> type
     static ALIASES: RefCell<BTreeMap<(String, String), Ty>> = RefCell::new(BTreeMap::new());
+    /// crate that owns the SIMPLE key of a selected type name (a second crate's type of that name is keyed `<crate>::<name>`)
+    static OWNERS: RefCell<BTreeMap<String, String>> = RefCell::new(BTreeMap::new());
+    /// `use <crate>::..::Name [as Alias];` of the parsed files: (file, visible name) -> (crate, original name)
+    static IMPORTS: RefCell<BTreeMap<(String, String), (String, String)>> = RefCell::new(BTreeMap::new());
+}
+
+/// crates of the repository (the first path segment of a cross-crate `use`)
+const CRATES: &[&str] = &["renet", "renetcode", "renet_netcode"];
+
+fn collect_imports(file: &str, tree: &syn::UseTree, root: Option<&str>, out: &mut BTreeMap<(String, String), (String, String)>) {
+    match tree {
+        syn::UseTree::Path(p) => {
+            let seg = p.ident.to_string();
+            let r = match root {
+                Some(r) => Some(r.to_string()),
+                None if CRATES.contains(&seg.as_str()) => Some(seg.clone()),
+                None => None,
+            };
+            if let Some(r) = r {
+                collect_imports(file, &p.tree, Some(&r), out);
+            }
+        }
+        syn::UseTree::Name(n) => {
+            if let Some(r) = root {
+                out.insert((file.to_string(), n.ident.to_string()), (r.to_string(), n.ident.to_string()));
+            }
+        }
+        syn::UseTree::Rename(n) => {
+            if let Some(r) = root {
+                out.insert((file.to_string(), n.rename.to_string()), (r.to_string(), n.ident.to_string()));
+            }
+        }
+        syn::UseTree::Group(g) => {
+            for t in &g.items {
+                collect_imports(file, t, root, out);
+            }
+        }
+        syn::UseTree::Glob(_) => {}
+    }
+}
+
+/// key of the type `simple` of crate `krate`
+fn key_in_crate(krate: &str, simple: &str, has: &dyn Fn(&str) -> bool) -> Option<String> {
+    let q = format!("{}::{}", krate, simple);
+    if has(&q) {
+        return Some(q);
+    }
+    let owned = OWNERS.with(|o| o.borrow().get(simple).map(|c| c == krate).unwrap_or(false));
+    if owned && has(simple) {
+        return Some(simple.to_string());
+    }
+    None
 }
 
 /// length expression of an array type (`[T; LEN]`, possibly behind references)
@@ -106,12 +158,27 @@ pub fn crate_of(file: &str) -> &str {
 /// Key of the type `simple` as seen from `file`: types are keyed by their simple Rust name, except that a type whose
 /// simple name is already taken by a selected type of ANOTHER crate is keyed `<crate>::<name>`.
 pub fn type_key(file: &str, simple: &str, type_names: &[String]) -> String {
+    let has = |k: &str| type_names.iter().any(|t| t == k);
+    // a name imported from another crate of the repository (`use renetcode::DisconnectReason;`)
+    if let Some((krate, orig)) = IMPORTS.with(|m| m.borrow().get(&(file.to_string(), simple.to_string())).cloned()) {
+        if let Some(k) = key_in_crate(&krate, &orig, &has) {
+            return k;
+        }
+    }
     let q = format!("{}::{}", crate_of(file), simple);
-    if type_names.iter().any(|t| *t == q) {
+    if has(&q) {
         q
     } else {
         simple.to_string()
     }
+}
+/// key of the type named by a path `krate::..::Name` whose first segment is a crate of the repository
+pub fn type_key_path(segs: &[String], type_names: &[String]) -> Option<String> {
+    if segs.len() >= 2 && CRATES.contains(&segs[0].as_str()) {
+        let has = |k: &str| type_names.iter().any(|t| t == k);
+        return key_in_crate(&segs[0], &segs[segs.len() - 1], &has);
+    }
+    None
 }
 /// simple Rust name of a type key
 pub fn simple_of(key: &str) -> &str {
@@ -302,8 +369,14 @@ impl Globals {
     }
     /// key of the type `simple` as seen from `file` (see `type_key`)
     pub fn tkey(&self, file: &str, simple: &str) -> String {
+        let has = |k: &str| self.structs.contains_key(k) || self.enums.contains_key(k);
+        if let Some((krate, orig)) = IMPORTS.with(|m| m.borrow().get(&(file.to_string(), simple.to_string())).cloned()) {
+            if let Some(k) = key_in_crate(&krate, &orig, &has) {
+                return k;
+            }
+        }
         let q = format!("{}::{}", crate_of(file), simple);
-        if self.structs.contains_key(&q) || self.enums.contains_key(&q) {
+        if has(&q) {
             q
         } else {
             simple.to_string()
@@ -329,6 +402,18 @@ impl Globals {
             rand_counts: RefCell::new(BTreeMap::new()),
         };
         register_builtins(&mut g);
+        // cross-crate `use` items of every parsed file
+        {
+            let mut imports = BTreeMap::new();
+            for (f, ast) in &cache.files {
+                for it in &ast.items {
+                    if let syn::Item::Use(u) = it {
+                        collect_imports(f, &u.tree, None, &mut imports);
+                    }
+                }
+            }
+            IMPORTS.with(|m| *m.borrow_mut() = imports);
+        }
         // pass 1: names (keys) of translated types
         let mut type_names: Vec<String> = g.structs.keys().cloned().collect();
         let mut owner: BTreeMap<String, String> = BTreeMap::new();
@@ -357,6 +442,7 @@ impl Globals {
                 _ => {}
             }
         }
+        OWNERS.with(|o| *o.borrow_mut() = owner.clone());
         // pass 2: definitions and signatures
         for (idx, w) in work.iter().enumerate() {
             if failed.contains_key(&w.group) {
@@ -620,6 +706,15 @@ impl Globals {
                                         }
                                     }
                                     if let syn::Type::Reference(r) = &*pt.ty {
+                                        // `&UdpSocket`: the OS socket is mutated through shared references (`send_to(&self)`,
+                                        // `recv_from(&self)`): the model socket is threaded through like a `&mut`
+                                        let is_socket = matches!(&*r.elem, syn::Type::Path(tp) if tp.path.segments.last().map(|x| x.ident == "UdpSocket").unwrap_or(false));
+                                        if r.mutability.is_none() && is_socket {
+                                            if name == "_" {
+                                                return err_at(path, pt.ty.span(), "unnamed `&UdpSocket` parameter");
+                                            }
+                                            mut_params.push(name.clone());
+                                        }
                                         if r.mutability.is_some() {
                                             // cursors of the semantic models and plain integers are threaded through
                                             // (so is a translated struct: the borrow checker keeps it disjoint from `self`
@@ -693,7 +788,12 @@ impl Globals {
                             }
                         };
                         if let Sel::From(d, s) = sel {
-                            g.from_impls.push((type_key(path, s, &type_names), type_key(path, d, &type_names), (self_ty.clone(), fn_name.clone())));
+                            // (the source type as the impl names it: `impl From<renet::DisconnectReason> for ..`)
+                            let src_key = match params.first() {
+                                Some((_, Ty::Named(k))) => k.clone(),
+                                _ => type_key(path, s, &type_names),
+                            };
+                            g.from_impls.push((src_key, type_key(path, d, &type_names), (self_ty.clone(), fn_name.clone())));
                         }
                         g.fns.entry((self_ty.clone(), fn_name.clone())).or_default().push(FnInfo {
                             group: group.clone(),
@@ -821,7 +921,7 @@ fn register_builtins(g: &mut Globals) {
         "Range".into(),
         StructInfo { group: String::new(), ns: ns.clone(), name: "Range".into(), fields: vec![("start".into(), Ty::Int(64)), ("end".into(), Ty::Int(64))], view: false, ignored: vec![] },
     );
-    for n in ["OctetsMut", "Octets", "BufferTooShortError", "ReadCursor", "WriteCursor"] {
+    for n in ["OctetsMut", "Octets", "BufferTooShortError", "ReadCursor", "WriteCursor", "UdpSocket"] {
         g.structs.insert(n.into(), StructInfo { group: String::new(), ns: ns.clone(), name: n.into(), fields: vec![], view: false, ignored: vec![] });
     }
     let bts = Ty::Named("BufferTooShortError".into());
@@ -897,6 +997,52 @@ fn register_builtins(g: &mut Globals) {
                 ret: Ty::Res(Box::new(Ty::Unit), Box::new(cerr.clone())),
                 order: 0,
             });
+        }
+    }
+    // `std::net::UdpSocket` (semantic model): `recv_from` pops the next event of the inbox script into the caller's buffer,
+    // `send_to` appends to the outbox log, `set_nonblocking` does nothing; `pending` (model only: fuel of receive loops)
+    {
+        let io_err = Ty::Opaque("RustSem.IoError".into());
+        let bytes_slice = Ty::List(Box::new(Ty::u8()), ListKind::Slice);
+        let addr = Ty::Opaque("RustSem.SocketAddr".into());
+        let mk = |name: &str, mode: SelfMode, params: Vec<(&str, Ty)>, mut_params: Vec<&str>, err_state: bool, ret: Ty| FnInfo {
+            group: String::new(),
+            ns: BUILTIN_NS.to_string(),
+            self_ty: Some("UdpSocket".to_string()),
+            name: name.to_string(),
+            self_mode: mode,
+            params: params.into_iter().map(|(a, b)| (a.to_string(), b)).collect(),
+            mut_params: mut_params.into_iter().map(|x| x.to_string()).collect(),
+            opt_mut_params: vec![],
+            field_clash: false,
+            ref_ret: None,
+            const_params: vec![],
+            err_state,
+            ret,
+            order: 0,
+        };
+        let entries = vec![
+            mk(
+                "recv_from",
+                SelfMode::Mut,
+                vec![("buf", bytes_slice.clone())],
+                vec!["buf"],
+                true,
+                Ty::Res(Box::new(Ty::Tuple(vec![Ty::usize(), addr.clone()])), Box::new(io_err.clone())),
+            ),
+            mk(
+                "send_to",
+                SelfMode::Mut,
+                vec![("buf", bytes_slice.clone()), ("addr", addr.clone())],
+                vec![],
+                true,
+                Ty::Res(Box::new(Ty::usize()), Box::new(io_err.clone())),
+            ),
+            mk("set_nonblocking", SelfMode::Mut, vec![("nonblocking", Ty::Bool)], vec![], true, Ty::Res(Box::new(Ty::Unit), Box::new(io_err.clone()))),
+            mk("pending", SelfMode::Ref, vec![], vec![], false, Ty::usize()),
+        ];
+        for e in entries {
+            g.fns.entry((Some("UdpSocket".to_string()), e.name.clone())).or_default().push(e);
         }
     }
     // free function `octets::varint_len`
@@ -1014,6 +1160,10 @@ pub fn conv_ty(file: &str, t: &syn::Type, self_ty: Option<&str>, type_names: &[S
             if name == "Duration" && args.is_empty() {
                 return Ok(Ty::Dur);
             }
+            if name == "UdpSocket" && args.is_empty() {
+                // `std::net::UdpSocket`: the semantic-model socket (see the RustSem header)
+                return Ok(Ty::Named("UdpSocket".into()));
+            }
             match (name.as_str(), args.len()) {
                 ("Box", 1) => return conv_ty(file, args[0], self_ty, type_names),
                 ("Vec", 1) | ("VecDeque", 1) => return Ok(Ty::List(Box::new(conv_ty(file, args[0], self_ty, type_names)?), ListKind::Vec)),
@@ -1051,6 +1201,9 @@ pub fn conv_ty(file: &str, t: &syn::Type, self_ty: Option<&str>, type_names: &[S
                 }
                 _ => {}
             }
+            if let Some(k) = type_key_path(&segs, type_names) {
+                return Ok(Ty::Named(k));
+            }
             let name = type_key(file, &name, type_names);
             if type_names.iter().any(|n| *n == name) {
                 return Ok(Ty::Named(name));
@@ -1058,6 +1211,11 @@ pub fn conv_ty(file: &str, t: &syn::Type, self_ty: Option<&str>, type_names: &[S
             // a selected `type Name = T;` of this crate
             if let Some(t) = ALIASES.with(|a| a.borrow().get(&(crate_of(file).to_string(), name.clone())).cloned()) {
                 return Ok(t);
+            }
+            // … or of another crate (imported with `use`), when the name is unambiguous
+            let others: Vec<Ty> = ALIASES.with(|a| a.borrow().iter().filter(|((_, n), _)| *n == name).map(|(_, t)| t.clone()).collect());
+            if others.len() == 1 {
+                return Ok(others[0].clone());
             }
             err_at(file, t.span(), format!("unsupported type `{}`", quote::quote!(#t)))
         }
